@@ -12,7 +12,7 @@ Line format:  family \t args \t impl \t - \t tag
                                                         shape: n (no parentheses) e `()` g (arguments given)
   c17.parser_method  <form> p [pat,...]                 pattern-only syntax
                      <form> b [[[pat,...],body,comma],...]   match-like syntax; body e|b; comma 0|1
-                                                        pat: s r c y (literal forms) w `_` k q b i h (non-literal)
+                                                        pat: s r c y (literal forms) w `_` k q b i h m z (non-literal; m z = inside concat!)
   c17.destructure    <shape> <pk> <ann> [elem,...] <n> <drop> <ref>
                                                         shape braced|tstruct|tuple|array; pk path|type|none
                                                         elem: field index | r (`..`) | a (`rem @ ..`, arrays)
@@ -353,6 +353,8 @@ TRIM_FORMS = FORMS[4:]
 PAT_TEXT = {
     "s": '"ab"', "r": 'r#"cd"#', "c": 'concat!("e", "f")', "y": "stringify!(gh)",
     "w": "_", "k": "KPAT", "q": "pats::QPAT", "b": 'b"ij"', "i": "7", "h": "'z'",
+    # a non-literal hidden inside concat!(..): as an argument after a literal, and alone
+    "m": 'concat!("e", KPAT)', "z": "concat!(KPAT)",
 }
 LIT_OK = "srcy"
 
@@ -392,7 +394,7 @@ def pm_cases(tier):
     E, B = "e", "b"
     dflt = (["w"], E, 1)
     dflt_nc = (["w"], E, 0)
-    nonlits = ["k", "b"] + (["q", "i", "h", "w"] if thorough else ["w"])
+    nonlits = ["k", "b", "m", "z"] + (["q", "i", "h", "w"] if thorough else ["w"])
     for form in MATCH_FORMS:
         first = form == MATCH_FORMS[0] or thorough
         # non-literal pattern, alone and inside an or-pattern
